@@ -55,6 +55,10 @@ PROPS = {
     "C01": dict(module="ZkElGamal.Props.C01", ns="Zk.Props.C01", trusted=[DALEK, MERLIN], assumptions=[ROM, DALEK, MERLIN]),
     "C02": dict(module="ZkElGamal.Props.C02", ns="Zk.Props.C02", trusted=[DALEK, MERLIN], assumptions=[ROM, DALEK, MERLIN]),
     "C03": dict(module="ZkElGamal.Props.C03", ns="Zk.Props.C03", trusted=[DALEK, MERLIN], assumptions=[ROM, DALEK, MERLIN]),
+    "C05": dict(module="ZkElGamal.Props.C05", ns="Zk.Props.C05", trusted=[DALEK, MERLIN],
+                assumptions=[DALEK, MERLIN, "completeness theorems carry the hypothesis that the masking commitments are not the identity (fails with probability ~2^-252 over honest nonces)",
+                             "rand::OsRng is external: the model takes nonces as explicit arguments"]),
+    "C20": dict(module="ZkElGamal.Props.C20", ns="Zk.Props.C20", trusted=[DALEK, MERLIN], assumptions=[DALEK, MERLIN]),
     "C15": dict(module="ZkElGamal.Props.C15", ns="Zk.Props.C15", extra=[consts_check], exhaustive=True,
                 assumptions=["solana_instruction::Instruction / AccountMeta and bytemuck::bytes_of are external (modelled)"]),
     "C16": dict(module="ZkElGamal.Props.C16", ns="Zk.Props.C16", extra=[consts_check], exhaustive=True,
@@ -87,6 +91,18 @@ MANIFEST_TEXT = {
         technique="Lean 4 proof (verify_ok_iff, batching-root bound, OR special-soundness extractor) + differential correspondence with either branch simulated by the model prover",
         text="Verification of the 360 bytes succeeds iff decode, no identity among three commitments and three masking commitments, and E_max + w E_delta + w^2 E_claimed = 0 with c_eq = c - c_max; "
              "two accepting transcripts yield (C_max opens to max_value) or (C_delta and C_claimed open to the same value). Correspondence: both branches real/simulated on true and false statements, residual vectors, max_value classes, perturbed sub-challenge, non-canonical scalars, identity commitments.",
+        note=SIGMA_NOTE),
+    "C05": dict(
+        technique="Lean 4 proof (constructor success, context = statement encoding, byte-level completeness prover->verifier) + differential correspondence of constructors and cross-verification (Rust-proved and model-proved, both verifiers)",
+        text="Theorems new_ok / new_context / complete for zero-ciphertext, pubkey validity, ct-ct and ct-commitment equality at the byte level (for all keys, amounts, openings, nonces with non-identity masking commitments); "
+             "constructor acceptance conditions for all nine sigma constructors incl. both cap branches (C20 theorems). Correspondence for all nine sigma instructions: boundary amounts, identity auditor key, identity second ciphertext, "
+             "fees below and exactly at the cap: constructor outcome and context bytes equal the model's, and every produced proof (Rust prover and model prover) verifies in both verifiers. "
+             "Finding F2 (capped branch unreachable) was exhibited by this check and repaired by a fix: commit. PARTIAL: byte-level completeness theorems for the validity/cap instructions and everything about the three range-proof instructions are not yet included in this check.",
+        note=SIGMA_NOTE + " OsRng is external (nonces are explicit in the model)."),
+    "C20": dict(
+        technique="Lean 4 proof (new = error iff the witness violates the relation, per constructor) + differential correspondence on witnesses violating exactly one relation",
+        text="Theorems X_new_none_iff for the nine sigma constructors (zero: decrypts to identity; ct-ct / ct-cmt: decryption and re-encryption/commitment; grouped: exact re-encryption for any number of handles, lo and hi separately; cap: percentage and claimed always, delta only below the cap). "
+             "Correspondence: every single statement point, key, amount and opening perturbed in turn: both sides must refuse; honest ones accepted. PARTIAL: range-proof constructor refusals are not yet in this check.",
         note=SIGMA_NOTE),
     "C15": dict(
         technique="Lean 4 proof (encode/decode laws for all inputs; `decide +kernel` over the enum/struct tables regenerated from source) + differential correspondence with the SDK encoders/decoders",
